@@ -42,9 +42,10 @@ PROPS = {
              'included; the quantifier aliases of apply are proved to delegate with the right roles (variables = support of first operand, '
              'body = second). That QEx/QFa are the OR/AND over the quantified variables and independent of them is lemma L-QUANT (Lean). '
              'The entry points quantify (body), forall and exist are proved on top of it (Q = levels of the named variables). The '
-             'name->level translation _map_to_level, support and sorted() are assumed contracts, bounded-checked (all functions of 3 '
-             'variables x all subsets x both quantifiers x orders).',
-             bounded=['vlib.rtc.c03'], tb=['BDD._map_to_level, BDD.support, sorted(): assumed contracts (bounded-checked)'],
+             'name->level translation _map_to_level is proved too; what apply hands over as "support of the first operand" is whatever '
+             'BDD.support returns (support itself is proved under C10); sorted() is an assumed builtin. Bounded stand-in: all functions '
+             'of 3 variables x all subsets x both quantifiers x orders.',
+             bounded=['vlib.rtc.c03'], tb=['sorted(): assumed builtin semantics', 'apply(forall/exists): the quantified set is the set returned by BDD.support (uninterpreted SUPP)'],
              design_ref='DESIGN.md 7/C03'),
     'C04': P('proof',
              'The three substitution recursions and renaming are proved: _cofactor (A2 = A overridden by the constants), _compose '
@@ -53,7 +54,7 @@ PROPS = {
              'Operand unchanged = frame Ext. The entry points are proved too: cofactor (body), compose (body; two contracts: exactly one '
              'variable / several at once), rename (method) and BDD.let in its three dispatch variants (dict of constants, of references, '
              'of names; empty dict returns u).',
-             bounded=['vlib.rtc.c04'], tb=['BDD._map_to_level, sorted(): assumed contracts (bounded-checked)',
+             bounded=['vlib.rtc.c04'], tb=['sorted(): assumed builtin semantics',
                                          'comprehension idiom {level_of(x): ... for x in names} modelled through the W8 bijection',
                                          'dd.autoref.BDD.let (Function unwrapping): bounded only'],
              design_ref='DESIGN.md 7/C04'),
@@ -92,14 +93,14 @@ PROPS = {
     'C08': P('other',
              'Proved (per-operation ledger over the ghost external count of the wrapped manager): Function.__init__ takes exactly one '
              'external reference (none when it raises), __del__ gives back exactly one and is idempotent, and every handle-returning '
-             'operation under contract (_wrap, _add_int, true/false, var, ite, apply per symbol, quantify/forall/exist, succ, low/high, '
-             'Function._apply and the operators ~ & | implies equiv) changes the external counts by exactly +1 per returned handle on '
+             'operation under contract (_wrap, _add_int, true/false, var, ite, apply per symbol, quantify/forall/exist, find_or_add, succ, low/high, '
+             'Function._apply and the operators ~ & | implies equiv; the incref/decref/add_var/collect_garbage wrappers) changes the external counts by exactly +1 per returned handle on '
              'top of the wrapped manager\'s own contract, with the state unchanged on exceptional exits; together with the RC invariant '
              '(C06) this is "count = in-edges + live handles". Preconditions: handles passed in are live handles (kind invariant). '
              'ASSUMED: CPython runs __del__ exactly once when the last reference to a handle disappears (temporaries net 0). Whole '
              'histories (drops in any order, collections, reorderings, final all-dropped check with BDD.__del__) are decided by the '
              'bounded stand-in.',
-             bounded=['vlib.rtc.c08'], tb=['CPython finaliser semantics', 'autoref let/cube/add_expr/copy/load/dump, image/preimage wrappers, __le__/__lt__: bounded only'],
+             bounded=['vlib.rtc.c08'], tb=['CPython finaliser semantics', 'autoref let/cube/add_expr/copy/load/dump, image/preimage wrappers: bounded only; __le__/__lt__: result proved, their temporaries bounded'],
              design_ref='DESIGN.md 7/C08'),
     'C09': P('other',
              'Proved: _request_reordering raises the signal only when requests are enabled, state unchanged; _ReorderingContext '
@@ -158,7 +159,9 @@ PROPS = {
              proof=False, bounded=['vlib.rtc.c16'], design_ref='DESIGN.md 7/C16'),
     'C17': P('other',
              'Proved: the exceptional postconditions of find_or_add, apply (unknown operator, wrong arity, unknown node, per alias class), '
-             'add_var, _check_var, _next_free_level, var, var_at_level, level_of_var, rename: raised iff the stated condition, state '
+             'add_var, _check_var, _next_free_level, var, var_at_level, level_of_var, rename, assert_operator_arity (all 27 symbols), '
+             '_map_to_level (undeclared name: ValueError or KeyError, nothing modified), the argument validation of swap (prefix contract), '
+             'the _suspend_reordering and _try_to_reorder wrappers (setting restored on every exit): raised iff the stated condition, state '
              'unchanged. Everything else (syntax errors, files, reorder with a bad order, undeclare in use, autoref) by fault injection: '
              '47 kinds of rejected call after every step of histories, then continued use.',
              bounded=['vlib.rtc.c17'], design_ref='DESIGN.md 7/C17'),
